@@ -881,3 +881,65 @@ func genPile(r *rand.Rand, w *world) []*vsDef {
 	}
 	return out
 }
+
+// ---------------------------------------------------------------------------------------
+// "multigw" stratum: ONE VirtualService bound to TWO Gateways that the same workload serves on the
+// same port (one route configuration, e.g. http.80) under different hosts, with rules scoped to one
+// of the two by match-level gateways. Which Gateway a request came through is decided by its
+// authority, so for every request exactly the rules bound to that Gateway (or to both) may apply.
+
+func genMultiGW(r *rand.Rand, w *world) []*vsDef {
+	sel := map[string]string{"istio": "ingressgateway"}
+	port := pick(r, []int{80, 8080})
+	hosts := append([]string{}, gwHostPool...)
+	r.Shuffle(len(hosts), func(i, j int) { hosts[i], hosts[j] = hosts[j], hosts[i] })
+	hA, hB := hosts[0], hosts[1]
+	gA := &gwDef{NS: gwNamespace, Name: "gw-a", Selector: sel, Servers: []gwServer{{Port: port, Hosts: []string{hA}}}}
+	gB := &gwDef{NS: gwNamespace, Name: "gw-b", Selector: sel, Servers: []gwServer{{Port: port, Hosts: []string{hB}}}}
+	if chance(r, 30) {
+		// a third host served by both: there the documentation does not say which rules apply (counted as unspecified)
+		gA.Servers[0].Hosts = append(gA.Servers[0].Hosts, hosts[2])
+		gB.Servers[0].Hosts = append(gB.Servers[0].Hosts, hosts[2])
+	}
+	w.Gateways = []*gwDef{gA, gB}
+	ns := pick(r, namespaces)
+	names := []string{gA.fullName(), gB.fullName()}
+	var out []*vsDef
+	nvs := 1 + r.Intn(2)
+	for k := 0; k < nvs; k++ {
+		cx := &vsCtx{w: w, ns: ns, gateways: names}
+		vs := &networking.VirtualService{Gateways: names}
+		switch r.Intn(3) {
+		case 0:
+			vs.Hosts = []string{hA, hB}
+		case 1:
+			vs.Hosts = []string{"*.example.org"}
+		default:
+			vs.Hosts = []string{"*"}
+		}
+		if k == 1 {
+			// the second one is bound to one of the two only
+			vs.Gateways = []string{pick(r, names)}
+			cx.gateways = vs.Gateways
+		}
+		cx.hosts = vs.Hosts
+		nr := 3 + r.Intn(4)
+		for i := 0; i < nr; i++ {
+			h := genRule(r, cx, i, i == nr-1)
+			for _, m := range h.Match {
+				m.Gateways = nil
+				m.SourceLabels, m.SourceNamespace = nil, ""
+				if len(vs.Gateways) > 1 && chance(r, 60) {
+					m.Gateways = []string{pick(r, names)}
+				}
+			}
+			if len(h.Match) == 0 && len(vs.Gateways) > 1 && chance(r, 50) {
+				// a rule for everything that came through one Gateway
+				h.Match = []*networking.HTTPMatchRequest{{Gateways: []string{pick(r, names)}, Uri: &networking.StringMatch{MatchType: &networking.StringMatch_Prefix{Prefix: "/"}}}}
+			}
+			vs.Http = append(vs.Http, h)
+		}
+		out = append(out, &vsDef{Name: fmt.Sprintf("mgw-%d", k), NS: ns, Seq: k, Spec: vs})
+	}
+	return out
+}
